@@ -35,6 +35,8 @@ type Engine struct {
 	GhostFields map[string]string
 	Census      []*spec.Census
 	Sweeps      []*spec.Sweep
+	CodecPairs  []*spec.CodecPairs
+	verNums     map[string]int64
 	Regexes     []*RegexDecl
 	Structs     []*StructDecl
 	guards      map[string]*guardInfo
@@ -182,6 +184,7 @@ func (e *Engine) addFile(sf *spec.File, pkg *types.Package) {
 	}
 	e.Census = append(e.Census, sf.Census...)
 	e.Sweeps = append(e.Sweeps, sf.Sweeps...)
+	e.CodecPairs = append(e.CodecPairs, sf.CodecPairs...)
 	for _, s := range sf.Structs {
 		e.Structs = append(e.Structs, &StructDecl{Kind: s.Kind, Args: s.Args, Props: s.Props, Pkg: s.Pkg, File: s.File, Line: s.Line})
 	}
